@@ -1,9 +1,9 @@
-\* table/image x 6 column sets x {whole, empty, proper, full subset} x 5 formats x 2 value alphabets
+\* table/image x 6 column sets x {whole, empty, proper, full subset} x 5 formats x 3 value alphabets
 CONSTANTS
   N = 4
   Formats = {"csv", "fits_table", "votable", "hdf5", "gridded_fits"}
   ColKinds = {"float", "int", "text"}
-  Profiles = {"plain", "edge"}
+  Profiles = {"plain", "edge", "narrow"}
 INIT Init
 NEXT Next
 INVARIANT Inv_RowsSubset
